@@ -258,8 +258,10 @@ pub trait ExFromStr: Sized {
 }
 /// whether `s.parse::<F>()` succeeds
 pub uninterp spec fn parse_ok<F>(s: Seq<char>) -> bool;
+/// the value `s.parse::<F>()` yields when it succeeds
+pub uninterp spec fn parse_val<F>(s: Seq<char>) -> F;
 pub assume_specification<F: core::str::FromStr>[ str::parse::<F> ](s: &str) -> (r: Result<F, <F as core::str::FromStr>::Err>)
-    ensures r is Ok <==> parse_ok::<F>(s@);
+    ensures r is Ok <==> parse_ok::<F>(s@), r is Ok ==> r->Ok_0 == parse_val::<F>(s@);
 pub open spec fn is_digit(c: char) -> bool { 48 <= c as u32 <= 57 }
 pub open spec fn all_digits(s: Seq<char>) -> bool { forall|i: int| 0 <= i < s.len() ==> is_digit(#[trigger] s[i]) }
 /// core::num `from_str_radix` for u64 (truthful): non-empty, an optional leading `+`, then digits
@@ -268,4 +270,11 @@ pub broadcast axiom fn axiom_parse_u64(s: Seq<char>)
     ensures s.len() >= 1 && (all_digits(s) || (s[0] == '+' && s.len() >= 2 && all_digits(s.skip(1))));
 pub assume_specification[ char::is_ascii_digit ](c: &char) -> (r: bool)
     ensures r == is_digit(*c);
+}
+verus! {
+/// `Vec<T> == [U]` (alloc: element-wise)
+pub assume_specification<T: PartialEq<U>, U, A: core::alloc::Allocator>[ <Vec<T, A> as PartialEq<[U]>>::eq ](a: &Vec<T, A>, b: &[U]) -> (r: bool)
+    ensures
+        <T as vstd::std_specs::cmp::PartialEqSpec<U>>::obeys_eq_spec() ==>
+            r == (a@.len() == b@.len() && forall|i: int| 0 <= i < a@.len() ==> (#[trigger] a@[i]).eq_spec(&b@[i]));
 }
